@@ -26,7 +26,7 @@ theorem toDdBinary_Er (cfg : Config) (cx : Cx) (lo hi : Nat) (op : String) (l' r
     s.counter ≤ (toDdBinary cfg (.bin op l' r' sp) s).2.counter ∧
     ∀ e1, (toDdBinary cfg (.bin op l' r' sp) s).1 = some e1 →
       Er cx lo (toDdBinary cfg (.bin op l' r' sp) s).2.counter e1 (.bin op l r sp) := by
-  simp only [toDdBinary, run_bind, replaceExpr_false]
+  simp only [toDdBinary, run_bind, replaceExpr_noExpand]
   have h1 := replaceExprNoExpand_Er cx lo hi l' l (getIdentMode r') [] [] sp .expr s hw hl
   generalize replaceExprNoExpand l' (getIdentMode r') [] [] sp .expr s = R1 at h1 ⊢
   obtain ⟨⟨l1, asg1, args1⟩, s1⟩ := R1
